@@ -12,6 +12,8 @@ package retention
 //	Apply   Service.ApplyRetentionBoundary (any boundary, bounded trims)
 //	Read    layer "store":   store.ChannelStore.ReadCommitted, MinSeq / MaxSeq passed explicitly
 //	        layer "service": Service.ReadCommittedBatch (the caller computes floor and cap)
+//	Head    Service.ReadConversationHead (newest ordinary row under the live committed watermark)
+//	Last    Service.ReadChannelLastVisible (replay only; known finding, see sigLastVisible)
 //	Sync    internal/infra/cluster ChannelMessageReader.SyncMessages (only in the overlay build,
 //	        see overlay/retention; `syncRead` is nil in the runner-module build and Sync steps
 //	        are skipped there)
@@ -57,6 +59,10 @@ const (
 	// Known finding: when nothing is committed (cap 0) readLocalCommitted hands MaxSeq 0 to the
 	// store, which both stores read as "no cap".
 	sigCapZero = "C10:committed-cap-zero-passed-to-store-as-unbounded"
+
+	// Known finding: Service.ReadChannelLastVisible answers with the newest DURABLE row: no
+	// committed cap, no SyncOnce filter, no store-adopted boundary.
+	sigLastVisible = "C10:last-visible-read-ignores-committed-cap"
 )
 
 // syncRead is installed by the overlay build (message_reader.go lives in an internal package).
@@ -340,6 +346,10 @@ func (s *sut) apply(rep *kit.Report, ev map[string]any) (outcome, error) {
 
 	case "Apply":
 		b, mt := uint64(kit.Int(ev, "b")), int(kit.Int(ev, "mt"))
+		pre, err := s.view()
+		if err != nil {
+			return outcome{}, err
+		}
 		ctx, cancel := ctxCall()
 		// The retention-owned checkpoint task inherits this context: it must stay alive until
 		// the checkpoint has completed (a caller that cancels right after the reply loses it).
@@ -349,8 +359,9 @@ func (s *sut) apply(rep *kit.Report, ev map[string]any) (outcome, error) {
 		if err != nil {
 			return outcome{}, infraf("ApplyRetentionBoundary(%d): %v", b, err)
 		}
-		if r.BlockedReason == ch.RetentionBlockedCheckpointLag {
-			// the handler submitted a retention-owned checkpoint at b: wait for its completion
+		if r.BlockedReason == ch.RetentionBlockedCheckpointLag && b > pre.CheckpointHW && b <= pre.HW && b <= pre.LEO {
+			// the handler submitted a retention-owned checkpoint at b (trySubmitRetentionCheckpoint
+			// does so exactly under these conditions): wait for its completion
 			deadline := time.Now().Add(callWait)
 			for {
 				v, verr := s.view()
@@ -418,6 +429,33 @@ func (s *sut) apply(rep *kit.Report, ev map[string]any) (outcome, error) {
 		seqs, bars := seqList(msgs)
 		return outcome{res: map[string]any{"seqs": seqs, "bars": bars}}, nil
 
+	case "Head":
+		ctx, cancel := ctxCall()
+		h, err := s.w.svc.ReadConversationHead(ctx, s.id, "u1")
+		cancel()
+		if err != nil {
+			return outcome{}, infraf("ReadConversationHead: %v", err)
+		}
+		seq := uint64(0)
+		if h.Found {
+			seq = h.Message.MessageSeq
+		}
+		return outcome{res: map[string]any{"found": h.Found, "seq": seq, "committed": h.LastCommittedSeq,
+			"retention": h.RetentionThroughSeq}}, nil
+
+	case "Last":
+		ctx, cancel := ctxCall()
+		m, found, err := s.w.svc.ReadChannelLastVisible(ctx, s.id, uint64(kit.Int(ev, "after")))
+		cancel()
+		if err != nil {
+			return outcome{}, infraf("ReadChannelLastVisible: %v", err)
+		}
+		seq := uint64(0)
+		if found {
+			seq = m.MessageSeq
+		}
+		return outcome{res: map[string]any{"found": found, "seq": seq}}, nil
+
 	case "Sync":
 		if syncRead == nil {
 			return outcome{skipped: true}, nil
@@ -435,22 +473,62 @@ func (s *sut) apply(rep *kit.Report, ev map[string]any) (outcome, error) {
 	return outcome{}, infraf("unknown action %q", kit.Str(ev, "a"))
 }
 
-// capZeroFinding reports whether a service-level read (Read layer service, Sync) that returned
-// rows did so while nothing was committed: the known finding, never part of a trace.
-func (s *sut) capZeroFinding(ev map[string]any, res map[string]any) (bool, uint64, error) {
+// capZeroFinding recognises the known finding, and nothing else: a service-level read (Read
+// layer service, Sync) answered with rows while the committed cap is 0, where the answer is
+// exactly what "MaxSeq 0 read as unbounded" produces.  In a replay that answer is computed by
+// the specification (ev.alt); in the random driver it is recognised by its shape: every
+// returned row is above the retention floor and, for the ordinary reader, no barrier row is
+// among them.  Anything else at cap 0 stays a fresh violation.
+func (s *sut) capZeroFinding(ev map[string]any, res map[string]any, replay bool) (bool, error) {
 	a := kit.Str(ev, "a")
 	if !(a == "Sync" || (a == "Read" && kit.Str(ev, "layer") == "service")) {
-		return false, 0, nil
+		return false, nil
 	}
 	seqs, _ := kit.Canon(res["seqs"]).([]any)
 	if len(seqs) == 0 {
-		return false, 0, nil
+		return false, nil
 	}
 	c, err := s.committedCap()
-	if err != nil {
-		return false, 0, err
+	if err != nil || c != 0 {
+		return false, err
 	}
-	return c == 0, c, nil
+	if replay {
+		return ev["alt"] != nil && kit.Equal(ev["alt"], res), nil
+	}
+	cur, _ := s.w.src.ResolveChannelMeta(context.Background(), s.id)
+	floor := cur.RetentionThroughSeq
+	bars := map[uint64]bool{}
+	err = s.withStore(func(cs store.ChannelStore) error {
+		ctx, cancel := ctxCall()
+		defer cancel()
+		rs, e := cs.LoadRetentionState(ctx)
+		if e != nil {
+			return infraf("store.LoadRetentionState: %v", e)
+		}
+		if rs.LocalRetentionThroughSeq > floor {
+			floor = rs.LocalRetentionThroughSeq
+		}
+		raw, e := cs.ReadCommitted(ctx, store.ReadCommittedRequest{FromSeq: 1})
+		if e != nil {
+			return infraf("raw scan: %v", e)
+		}
+		for _, m := range raw.Messages {
+			if m.SyncOnce {
+				bars[m.MessageSeq] = true
+			}
+		}
+		return nil
+	})
+	if err != nil {
+		return false, err
+	}
+	for _, x := range seqs {
+		q := uint64(kit.ToInt(x))
+		if q <= floor || (a == "Sync" && bars[q]) {
+			return false, nil
+		}
+	}
+	return true, nil
 }
 
 // The report keeps only a few violations: the known finding is written out once per run and
@@ -466,6 +544,19 @@ func reportCapZero(rep *kit.Report, s *sut, ev, res map[string]any, replay any) 
 	rep.ViolateSig(prop, "reply", fmt.Sprintf("store=%s minISR=%d: %s returned %s although the committed cap is 0 "+
 		"(readLocalCommitted passes MaxSeq 0, which the store reads as unbounded)", s.w.kind, s.minISR,
 		kit.JSON(kit.CloneEv(ev)), kit.JSON(res["seqs"])), sigCapZero, replay)
+}
+
+var lastVisibleReported bool
+
+func reportLastVisible(rep *kit.Report, s *sut, ev, res map[string]any, replay any) {
+	rep.AddExtra("last_visible_finding_hits", 1)
+	if lastVisibleReported {
+		return
+	}
+	lastVisibleReported = true
+	rep.ViolateSig(prop, "reply", fmt.Sprintf("store=%s minISR=%d: %s answered %s, the newest durable row, where the "+
+		"committed / retention / SyncOnce rules give %s (readLocalLastVisible reads the store with MaxSeq = MaxUint64 and "+
+		"looks at one row)", s.w.kind, s.minISR, kit.JSON(kit.CloneEv(ev)), kit.JSON(res), kit.JSON(ev["res"])), sigLastVisible, replay)
 }
 
 // ---- spec -> code ---------------------------------------------------------------------
@@ -500,7 +591,12 @@ func replayAll(rep *kit.Report, worlds map[string]*world, behs []kit.Behaviour) 
 			}
 			cse := map[string]any{"behaviour": b, "step": si + 1, "observed": out.res}
 			if d := kit.Diff(st.Ev["res"], out.res); d != "" {
-				known, _, ferr := s.capZeroFinding(st.Ev, out.res)
+				if kit.Str(st.Ev, "a") == "Last" && st.Ev["alt"] != nil && kit.Equal(st.Ev["alt"], out.res) {
+					// exactly the answer the specification computes for the known deviation
+					reportLastVisible(rep, s, st.Ev, out.res, cse)
+					continue
+				}
+				known, ferr := s.capZeroFinding(st.Ev, out.res, true)
 				if ferr != nil {
 					rep.Infra("behaviour %d step %d: %v", bi, si+1, ferr)
 					break
@@ -587,7 +683,7 @@ func drive(rep *kit.Report, rec *kit.Recorder, rng *rand.Rand, worlds map[string
 			if out.skipped {
 				continue
 			}
-			if known, _, ferr := s.capZeroFinding(ev, out.res); ferr != nil {
+			if known, ferr := s.capZeroFinding(ev, out.res, false); ferr != nil {
 				rep.Infra("trace %d step %d: %v", tr, i, ferr)
 				return
 			} else if known {
@@ -701,6 +797,8 @@ func randomCall(rng *rand.Rand, s *sut, v ch.RetentionView) map[string]any {
 				}
 			}
 			return kit.Ev("Read", "layer", "service", "from", from, "mn", 0, "mx", mx, "lim", lim, "rev", rev)
+		case x < 94:
+			return kit.Ev("Head")
 		default:
 			if syncRead == nil {
 				continue
